@@ -25,7 +25,7 @@ from props.simlib import acn, START
 
 FUNCS = alglib.ALG_FUNCS
 ASSUMPTIONS = simlib.SIM_ASSUMPTIONS + [
-    "continuous EVSEs have max pilot 0.16 A (quick) / 0.32-0.64 A (thorough) so that the hard-coded eps = 0.01 A bisection has depth <= 4 / 6; larger max/eps ratios are outside the claim (the bisection step is the same code at every depth); round-robin increments 0.04-0.3 A on those EVSEs (including increments that do not divide the bounds)",
+    "continuous EVSEs have max pilot 0.04-0.08 A (quick) / 0.08-0.16 A, one job 0.64 A (thorough) so that the hard-coded eps = 0.01 A bisection has depth <= 3 / 4 (6 in that job); larger max/eps ratios are outside the claim (the bisection step is the same code at every depth); round-robin increments 0.04-0.3 A on those EVSEs (including increments that do not divide the bounds)",
     "finite-rate EVSEs: ClipperCreek levels {0,8,16,24,32}, AeroVironment truncated to {0,6,...,10} (quick) / full {0,6..32} in one thorough job",
     "voltages 208/240/120 V, period 5 min concrete; one scheduler call from an arbitrary reachable pre-state (any accepted previous pilots, any battery power limits, any requested energies with remaining demand > 1e-3 kWh, any stored rampdown bounds in [0, max pilot]); session ids differ from station ids",
     "sorting keys that depend on symbolic energies (laxity, remaining processing time) fork on every comparison: all orders are explored",
@@ -235,9 +235,9 @@ def jobs(tier):
                       bounds=dict(stations=[s[0] + "@%dV/%d" % (s[1], s[2]) for s in p["stations"]], constraints=p["rows"], sessions=len(p["sessions"]), algorithm=p["algo"], sort=p["sort"],
                                   estimator=p["estimator"], uninterrupted=p["uninterrupted"], continuous_inc=p["inc"]), cost=p.pop("_cost", 10)))
 
-    c = "C0.08" if q else "C0.32"
+    c = "C0.08" if q else "C0.16"
     # --- greedy, two stations: continuous + finite, single phase, mixed-sign and sum rows
-    c1 = "C0.04" if q else c
+    c1 = "C0.04" if q else "C0.08"
     mixes2 = [([(c, 208, 0), ("CC", 240, 0)], [(1, 1)], 40.0), ([(c1, 208, 0), (c1, 120, 0)], [(1, 1), (1, -1)], 0.4), ([("AV5", 208, 0), ("CC", 208, 0)], [(1, 1)], 50.0)]
     for mi, (st, rows, lh) in enumerate(mixes2):
         for sort in (SORTS if not q else ((SORTS[mi % 5], SORTS[(mi + 3) % 5]) if mi != 1 else ("lcfs",))):
@@ -251,7 +251,7 @@ def jobs(tier):
                     continue
                 add("rr[mix%d,%s,est=%s,unint=%d,inc=%s]" % (mi, sort, est, unint, inc), stations=st, rows=rows, sessions=SESS2, algo="rr", sort=sort, estimator=est, uninterrupted=unint, inc=inc, limit_hi=lh)
     # --- three stations, three-phase, mixed-sign constraints; one station vacated / one session finished
-    tri = [(c, 208, 30), ("CC", 208, -90), ("AV5", 208, 150)]
+    tri = [("C0.08", 208, 30), ("CC", 208, -90), ("AV5", 208, 150)]
     rows3 = [(1, 0, -1), (-1, 1, 0)]
     for algo, sort, est, unint in ((("greedy", "edf", None, False), ("rr", "fcfs", "rampdown", False)) if q else
                                    [(a, s_, e, u) for a in ("greedy", "rr") for s_ in ("fcfs", "edf", "llf") for e, u in ((None, False), ("rampdown", True))]):
@@ -277,8 +277,8 @@ def jobs(tier):
     # --- simulation-level corollary
     sims = [([("C0.04", 208, 0), ("CC", 208, 0)], [(1, 1)], 2, 2, "greedy", "fcfs", None, False, 0.1), ([("C0.04", 208, 0), ("AV5", 208, 0)], [(1, 1)], 2, 2, "rr", "edf", "rampdown", True, 0.03)]
     if not q:
-        sims += [([("C0.16", 208, 0), ("CC", 208, 0)], [(1, 1)], 2, 3, "greedy", "fcfs", None, False, 0.1), ([("C0.16", 208, 0), ("AV5", 208, 0)], [(1, 1)], 2, 3, "rr", "edf", "rampdown", True, 0.07)]
-        sims += [([("C0.16", 208, 0), ("CC", 208, 0)], [(1, 1)], 2, 4, a, s_, e, u, 0.07) for a in ("greedy", "rr") for s_ in ("llf", "lrpt") for e, u in ((None, True), ("rampdown", False))]
+        sims += [([("C0.04", 208, 0), ("CC", 208, 0)], [(1, 1)], 2, 3, "greedy", "fcfs", None, False, 0.1), ([("C0.04", 208, 0), ("AV5", 208, 0)], [(1, 1)], 2, 3, "rr", "edf", "rampdown", True, 0.03)]
+        sims += [([("C0.04", 208, 0), ("CC", 208, 0)], [(1, 1)], 2, 3, a, s_, e, u, 0.03) for a, s_, e, u in (("greedy", "llf", "rampdown", False), ("rr", "lrpt", None, True))]
     for st, rows, ns, H, algo, sort, est, unint, inc in sims:
         js.append(Job("sim[%s,%s,%s,est=%s,unint=%d,H=%d]" % (algo, "+".join(s[0] for s in st), sort, est, unint, H), h_sim,
                       dict(stations=st, rows=rows, n_sess=ns, H=H, algo=algo, sort=sort, estimator=est, uninterrupted=unint, inc=inc), functions=FUNCS + simlib.SIM_FUNCS[:4], max_paths=200000, timeout=6000,
